@@ -1,10 +1,16 @@
 #!/usr/bin/env python3
-"""SMT-lemma table of ../README.md and coverage check of Secp/SecpSMT.lean.
+"""SMT-lemma table of ../README.md and coverage check of Secp/SecpSMT.lean + Secp/SecpSMT2.lean.
 
 Reads the `//@ lemma name(params) {lean: ...}: body` lines of the three contract files (read-only), looks up
-`theorem <name>` in section 3 of Secp/SecpSMT.lean, and
+`theorem <name>` in section 3 of Secp/SecpSMT.lean and of Secp/SecpSMT2.lean, and
   * reports lemma lines without a theorem, theorems missing from build.sh's THEOREMS list, and theorems
     without an entry in RESTS below (exit status 1 if any),
+  * treats the lemmas of ASSUMED below as intentionally unproved: each must carry a `{lean: ASSUMED ...}` tag in
+    the contract file, must NOT have a theorem, must NOT be in build.sh's THEOREMS list, must be in build.sh's
+    ASSUMED list, and must have its literal translation recorded as `def <name>_statement ... : Prop` in
+    SecpSMT.lean; a lemma tagged ASSUMED that is not in the allowlist is an error,
+  * checks that every line between `-- BEGIN SHARED` and `-- END SHARED` of SecpSMT2.lean (the vocabulary it has
+    to repeat because it cannot import SecpSMT.lean) is verbatim a line of SecpSMT.lean,
   * rewrites the block between `<!-- BEGIN SMT LEMMAS -->` and `<!-- END SMT LEMMAS -->` of ../README.md
     (statement column = source text from `theorem` up to `:=`, whitespace collapsed).
 Plain python3, no third-party modules.  usage: smt_table.py [--check]   (--check: do not rewrite README.md)
@@ -71,7 +77,20 @@ RESTS = {
     "poly_nonzero": "`Secp.Hyp.nocube` of `Secp.hypP` (N1); " + PRIME_P,
     "sq_zero": "`mul_self_eq_zero`",
     "firstnz_step": "definition of `firstnz` (`Nat.find`); `Nat.find_eq_zero`, `Nat.find_eq_iff`, `Nat.find_min`",
+    "neg_zero_iff": "`neg_eq_zero`",
+    "sswu_on_curve": "`Secp.sswu_on_curve` (M1) with `tv1..gxd` := the `sswu_*` defines and `y1` := `sr_y1(gxn, gxd)`; "
+                     "`Secp.sqrt_ratio_3mod4` (S1) inside M1; `ZC_cast`, `AC_cast`, `BC_cast`, `C2_cast` "
+                     "(contract constants = `Secp.Zc`, `Secp.A'`, `Secp.B'`, `Secp.c2`); " + PRIME_P,
+    "iso_valid": "`Secp.iso_on_curve` (M2), `field_simp`; `K10_cast` .. `K42_cast` (contract constants = `Secp.k10` .. "
+                 "`Secp.k42`); the `iso_id` branch is `(0, 1, 0)`",
+    "chord_on_curve": "`linear_combination` (x2 - x3)·e1 + (x3 - x1)·e2 + (x3 - x1)(y2 + y1 + l(x2 - x1))·(l(x2 - x1) = y2 - y1), "
+                      "then cancel `x2 - x1 ≠ 0` (`mul_eq_zero`); any field, any A', B'",
 }
+# lemmas the contract files tag `{lean: ASSUMED ...}`: intentionally without a theorem (and never `ok` in the stamp)
+ASSUMED = {
+    "iso_hom_chord": "ASSUMED, not proved: RFC 9380 6.6.3 / E.1, `iso_map` is a group homomorphism E' → E",
+}
+LEANFILES = ["SecpSMT", "SecpSMT2"]
 
 
 def lemma_lines():
@@ -81,40 +100,94 @@ def lemma_lines():
             for line in fh:
                 m = re.match(r"\s*//@ lemma (\w+)\((.*?)\)\s*(\{[^}]*\})?\s*:\s*(.*)$", line)
                 if m:
-                    out.append((m.group(1), os.path.relpath(f, "/repo"), m.group(4).strip()))
+                    out.append((m.group(1), os.path.relpath(f, "/repo"), m.group(4).strip(), m.group(3) or ""))
     return out
 
 
+def read(mod):
+    return open(os.path.join(root, "Secp", mod + ".lean"), encoding="utf-8").read()
+
+
 def statements():
-    src = open(os.path.join(root, "Secp", "SecpSMT.lean"), encoding="utf-8").read()
-    body = src.split("## 3. The lemmas", 1)[1]
+    """theorem name -> (one-line statement, module)"""
     st = {}
-    for m in re.finditer(r"^theorem (\w+)\b(.*?):=", body, re.M | re.S):
-        st[m.group(1)] = re.sub(r"\s+", " ", "theorem " + m.group(1) + m.group(2)).strip()
-    return st
+    dup = []
+    for mod in LEANFILES:
+        body = read(mod).split("## 3. The lemmas", 1)[1]
+        for m in re.finditer(r"^theorem (\w+)\b(.*?):=", body, re.M | re.S):
+            if m.group(1) in st:
+                dup.append(m.group(1))
+            st[m.group(1)] = (re.sub(r"\s+", " ", "theorem " + m.group(1) + m.group(2)).strip(), mod)
+    return st, dup
+
+
+def assumed_statements():
+    """name -> the `def <name>_statement ... : Prop := ...` line of SecpSMT.lean"""
+    out = {}
+    for m in re.finditer(r"^def (\w+)_statement\b.*$", read("SecpSMT"), re.M):
+        out[m.group(1)] = m.group(0).strip()
+    return out
+
+
+def shared_mismatches():
+    """lines of the SHARED block of SecpSMT2.lean that are not verbatim lines of SecpSMT.lean"""
+    s2 = read("SecpSMT2")
+    block = s2.split("-- BEGIN SHARED", 1)[1].split("-- END SHARED", 1)[0]
+    lines1 = set(read("SecpSMT").split("\n"))
+    return [l for l in block.split("\n") if l.strip() and l not in lines1]
 
 
 def main():
     check_only = "--check" in sys.argv
     lem = lemma_lines()
-    st = statements()
+    st, dup = statements()
+    ast = assumed_statements()
     build = open(os.path.join(root, "build.sh"), encoding="utf-8").read()
     bad = 0
+    for d in dup:
+        print("theorem declared twice:", d); bad = 1
+    for l in shared_mismatches():
+        print("SecpSMT2.lean SHARED line is not a line of SecpSMT.lean:", l[:100]); bad = 1
     seen = set()
     rows = []
-    for name, f, body in lem:
+    nthm = 0
+    for name, f, body, tag in lem:
         if name in seen:
             print("duplicate lemma name", name); bad = 1
         seen.add(name)
+        tagged = "ASSUMED" in tag
+        if name in ASSUMED:
+            if not tagged:
+                print("allowlisted as ASSUMED but not tagged {lean: ASSUMED ...} in", f + ":", name); bad = 1
+            if name in st:
+                print("ASSUMED lemma has a theorem (remove it from the allowlist):", name); bad = 1
+            if re.search(r"^SecpSMT\.%s \w+$" % re.escape(name), build, re.M):
+                print("ASSUMED lemma must not be in build.sh THEOREMS:", name); bad = 1
+            if not re.search(r"^ASSUMED=.*\bSecpSMT\.%s\b" % re.escape(name), build, re.M):
+                print("ASSUMED lemma not in build.sh ASSUMED list:", name); bad = 1
+            if name not in ast:
+                print("no `def %s_statement` in SecpSMT.lean" % name); bad = 1
+            rows.append("| `%s` (%s) | none (`SecpSMT.%s_statement` is only the statement) | `%s` | %s |"
+                        % (name, f, name, ast.get(name, "?"), ASSUMED[name]))
+            continue
+        if tagged:
+            print("lemma tagged ASSUMED in %s but not in the ASSUMED allowlist of smt_table.py:" % f, name); bad = 1
         if name not in st:
             print("NO THEOREM for lemma", name, "(%s)" % f); bad = 1
             continue
-        if not re.search(r"^SecpSMT\.%s SecpSMT$" % re.escape(name), build, re.M):
-            print("not in build.sh THEOREMS:", name); bad = 1
+        stmt, mod = st[name]
+        nthm += 1
+        if not re.search(r"^SecpSMT\.%s %s$" % (re.escape(name), mod), build, re.M):
+            print("not in build.sh THEOREMS (as `SecpSMT.%s %s`):" % (name, mod), name); bad = 1
         if name not in RESTS:
             print("no RESTS entry:", name); bad = 1
-        rows.append("| `%s` (%s) | `SecpSMT.%s` | `%s` | %s |" % (name, f, name, st[name], RESTS.get(name, "?")))
-    print("%d lemma lines, %d with a theorem" % (len(lem), len(rows)))
+        thm = "`SecpSMT.%s`" % name + ("" if mod == "SecpSMT" else " (`Secp/%s.lean`)" % mod)
+        rows.append("| `%s` (%s) | %s | `%s` | %s |" % (name, f, thm, stmt, RESTS.get(name, "?")))
+    for name in ASSUMED:
+        if name not in seen:
+            print("ASSUMED allowlist entry without a lemma line:", name); bad = 1
+    print("%d lemma lines, %d with a theorem, %d assumed (intentionally unproved: %s)"
+          % (len(lem), nthm, len(ASSUMED), ", ".join(sorted(ASSUMED))))
     if not check_only:
         p = os.path.join(root, "README.md")
         s = open(p, encoding="utf-8").read()
